@@ -108,6 +108,7 @@ def run(ctx, built):
     PS.stream_plan(ctx, built, ctx.scale(50, 300))
     SS.stream_stitch(ctx, built, ctx.scale(60, 600))
     ES.stream_micro(ctx, built, ctx.scale(8, 80))
+    ES.stream_sample1(ctx, built, ctx.scale(8, 100))
 
 
 def search(ctx, seeds):
